@@ -63,14 +63,14 @@ func ruleGetPrecedence(r *Report) {
 		b := e.To
 		for i := 0; i < 4 && b != nil; i++ {
 			if ret, ok := b.Instrs[len(b.Instrs)-1].(*ssa.Return); ok {
-				v := ret.Results[0]
+				v := stripClone(ret.Results[0]) // the caller gets a copy of the memstore's value
 				if v == mv {
 					okOv = true
 				}
 				if u, ok := v.(*ssa.UnOp); ok && isCell(u.X) {
 					vals, _ := reachingStores(u)
 					for _, x := range vals {
-						if x == mv {
+						if stripClone(x) == mv {
 							okOv = true
 						}
 					}
